@@ -11,7 +11,7 @@ prunable cache only there; (2) add_new_status: a prunable status (anything but S
 the cache and the queue with the same timestamp and replaces the non-prunable (submitted) entry; a
 submitted status is kept in the non-prunable map; is_prunable matches exactly Submitted as
 non-prunable; (3) status_update always registers the status (prune, then add) before it is broadcast;
-status() consults both maps.
+status() consults both maps. non_prunable_statuses entries are removed only by add_new_status (when a newer status arrives); prune_old_statuses touches only the queue and the prunable cache.
 """
 NOT_DECIDED = """Time arithmetic; lookup precedence between the two maps as a value relation."""
 
